@@ -76,7 +76,21 @@ def lean_build(targets=('FlexVerif', 'fvdriver')):
 
 def lean_failed_decls(output):
     """names of files / declarations lake reported errors for"""
-    return sorted(set(re.findall(r'error: (\S+\.lean:\d+:\d+)', output)))
+    out = set()
+    for pos in set(re.findall(r'error: (\S+\.lean:\d+:\d+)', output)):
+        fn, ln, _ = pos.rsplit(':', 2)
+        name = None
+        try:
+            lines = open(os.path.join(LEAN_DIR, fn)).read().split('\n')
+            for i in range(min(int(ln), len(lines)) - 1, -1, -1):
+                m = re.match(r'\s*(?:@\[[^\]]*\]\s*)?(?:private\s+)?(?:theorem|lemma|def|example|instance|abbrev)\s+(\S+)', lines[i])
+                if m:
+                    name = m.group(1)
+                    break
+        except OSError:
+            pass
+        out.add('%s (%s)' % (pos, name) if name else pos)
+    return sorted(out)
 
 
 def audit_sources():
